@@ -31,6 +31,7 @@ META = {
                  'while C12-number-ctor-uninit is open: the storage a value is constructed in has zero bytes at offset 8..15',
                  'while C12-assign-type-no-reset is open: operator=(ValueType) is applied to Undefined / True / False / Null values only',
                  'while C12-setptr-null is open: SetPointerToValue(nullptr) is applied to Undefined values only',
+                 'while C12-append-moved-member is open: v += move(member of v) is applied only when the array has spare room',
                  'while C12-remove-string-key is open: Remove(const String&) on an object is applied only when the key length equals the slot count'],
 }
 # known findings of this harness; with VF_KF_MANUAL=1 the defines are passed directly (for ids not yet in known_findings.json)
@@ -38,6 +39,7 @@ KF_CTOR = 'C12-number-ctor-uninit'
 KF_TYPE = 'C12-assign-type-no-reset'
 KF_NULLP = 'C12-setptr-null'
 KF_RMKEY = 'C12-remove-string-key'
+KF_APMOVE = 'C12-append-moved-member'
 MAN = os.environ.get('VF_KF_MANUAL') == '1'
 KIND = {'U': 0, 'S': 4, 'UI': 5, 'I': 6, 'D': 7, 'T': 8, 'F': 9, 'NUL': 10, 'X': 20}
 KEYID = {'e': 0, 'a': 1, 'b': 2, 'ab': 3}
@@ -84,7 +86,7 @@ def Q(pre, op, src=None, kf_only=None, stub=True, **kw):
     for k in ('SEL', 'W', 'BV', 'LEN_A', 'AN', 'IDX', 'KA', 'COERCE'):
         if k in kw:
             d[k] = kw.pop(k); name += '/%s%d' % (k.lower(), d[k])
-    excl = [KF_CTOR] + ([KF_TYPE] if op == 'AS_TYPE' else []) + ([KF_NULLP] if op == 'SET_PTR' else []) + ([KF_RMKEY] if op == 'REMOVE_KEY' else [])
+    excl = [KF_CTOR] + ([KF_TYPE] if op == 'AS_TYPE' else []) + ([KF_NULLP] if op == 'SET_PTR' else []) + ([KF_RMKEY] if op == 'REMOVE_KEY' else []) + ([KF_APMOVE] if op == 'AP_ELEM' else [])
     if kf_only:
         excl = [k for k in excl if k != kf_only]; name += '/only:' + kf_only
     if MAN:
@@ -145,6 +147,7 @@ def queries(tier):
         for op in (('NONE', 'CTOR_COPY', 'CTOR_MOVE') if q else ('NONE', 'CTOR_COPY', 'CTOR_MOVE', 'RESET', 'COMPRESS')): qs.append(Q(p, op))
         if not q:
             qs.append(Q(p, 'AP_SCALAR', SEL=3, W=0)); qs.append(Q(p, 'KEY', KA=1, W=0)); qs.append(Q(p, 'AS_COPY', src='O_a.UI'))
+    if q: qs.append(Q('A_UI', 'AP_ELEM', SEL=0)); qs.append(Q('A_UI', 'AP_ELEM', SEL=1)); qs.append(Q('A_T_S', 'AP_ELEM', SEL=0)); qs.append(Q('A_T_S', 'AP_ELEM', SEL=1))
     for p, bvs in (('A', (1, 2, 3)), ('A_UI_I', (1, 2, 3)), ('O', (1, 2, 3)), ('O_a.UI_b.S', (1, 2, 3)), ('O_a.X_b.UI', (1, 2, 3))):   # the other constructor families
         for bv in (bvs if not q else bvs[1:2]):
             qs.append(Q(p, 'NONE', BV=bv))
@@ -152,7 +155,7 @@ def queries(tier):
     # numeric / boolean coercion of strings (real Digit::stringToNumber and power kernels, no stub): concrete texts with their expected reading
     def dbl(x): return struct.unpack('<Q', struct.pack('<d', x))[0]
     CO = [('0', 2, 0, 0), ('7', 2, 7, 0), ('123', 2, 123, 0), ('-5', 3, (1 << 64) - 5, 0), ('1.5', 1, dbl(1.5), 0), ('true', 0, 0, 1), ('false', 0, 0, 2),
-          ('abc', 0, 0, 0), ('', 0, 0, 0), ('12a', 0, 0, 0), ('007', 0, 0, 0), ('1e2', 1, dbl(100.0), 0), ('-0', 3, 0, 0), ('True', 0, 0, 0), ('+3', 2, 3, 0)]
+          ('abc', 0, 0, 0), ('', 0, 0, 0), ('12a', 0, 0, 0), ('007', 0, 0, 0), ('1e2', 1, dbl(100.0), 0), ('-0', 1, dbl(-0.0), 0), ('True', 0, 0, 0), ('+3', 2, 3, 0)]
     for i, (txt, et, eb, ebool) in enumerate(CO if not q else CO[:9]):
         for p in (('S%d' % len(txt),) if q or len(txt) > 2 else ('S%d' % len(txt), 'P_S%d' % len(txt))):
             x = Q(p, 'NONE', COERCE=1, stub=False)
@@ -166,6 +169,7 @@ def queries(tier):
     qs.append(Q('UI', 'AS_TYPE', SEL=3, kf_only=KF_TYPE))
     qs.append(Q('UI', 'SET_PTR', src='UI', SEL=1, kf_only=KF_NULLP))
     if not q: qs.append(Q('P_UI', 'SET_PTR', src='UI', SEL=1, kf_only=KF_NULLP))   # a ValuePtr left with a null target: every observer dereferences it
+    qs.append(Q('A_T_S', 'AP_ELEM', SEL=1, kf_only=KF_APMOVE))                  # [true, "x"] is full: growing releases the storage the argument lives in
     qs.append(Q('O_a.UI_b.S', 'REMOVE_KEY', KA=2, W=1, kf_only=KF_RMKEY))      # "b" read with length 2: not found, nothing removed
     qs.append(Q('O_a.UI', 'REMOVE_KEY', KA=3, W=1, kf_only=KF_RMKEY))          # "ab" read with length 1: removes "a"
     return qs
